@@ -67,7 +67,7 @@ func (x *Exec) libStatic(st *State, f *Frame, callee *ssa.Function, c *ssa.CallC
 	case "strings.TrimSuffix":
 		has := App(SBool, "str.suffixof", sc(1), sc(0))
 		return Sc{Ite(has, App(SStr, "str.substr", sc(0), IntLit(0), Sub(App(SInt, "str.len", sc(0)), App(SInt, "str.len", sc(1)))), sc(0))}, true
-	case "strings.Trim", "strings.TrimLeft", "strings.TrimRight", "strings.Repeat":
+	case "strings.Trim", "strings.TrimRight", "strings.Repeat":
 		x.noteLib(name + ": uninterpreted pure function")
 		var ts []Term
 		for _, a := range args {
@@ -106,7 +106,26 @@ func (x *Exec) libStatic(st *State, f *Frame, callee *ssa.Function, c *ssa.CallC
 		return Sc{t}, true
 	case "fmt.Sprintf":
 		return x.sprintf(st, args), true
-	case "fmt.Sprint", "fmt.Sprintln":
+	case "fmt.Sprint":
+		// fmt.Sprint of a single integer is its decimal representation
+		if va, ok := args[0].(SliceV); ok {
+			if n, ok := isIntLit(va.Len); ok && n == 1 {
+				el := st.loadAt(ElemAddr{va.Arr, IntLit(0), va.Elem}, va.Elem).(IfaceV)
+				if tg, ok := isIntLit(el.Tag); ok {
+					if t := reg.tagType(tg); t != nil {
+						if b, ok := t.Underlying().(*types.Basic); ok && b.Info()&types.IsInteger != 0 {
+							x.noteLib("fmt.Sprint(int) is strconv.Itoa")
+							return Sc{itoa(el.Pay)}, true
+						}
+						if b, ok := t.Underlying().(*types.Basic); ok && b.Info()&types.IsString != 0 {
+							return Sc{unbox(st, el, types.Typ[types.String]).(Sc).T}, true
+						}
+					}
+				}
+			}
+		}
+		return Sc{reg.freshConst("sprint", SStr)}, true
+	case "fmt.Sprintln":
 		return Sc{reg.freshConst("sprint", SStr)}, true
 	case "fmt.Errorf", "errors.New", "golang.org/x/xerrors.Errorf", "golang.org/x/xerrors.New":
 		r := st.newRef("err")
